@@ -113,7 +113,7 @@ class MapSpec:
     _is_generated: bool = False
 
     def __post_init__(self) -> None:
-        if any(x is None for x in self.outputs[0].axes):
+        if any(x is None for output in self.outputs for x in output.axes):
             msg = "Output array must have all axes indexed (no ':')."
             raise ValueError(msg)
 
